@@ -133,6 +133,13 @@ CLAIMED = {
    "For each file in the window the multiset of DS1xx diagnostics (code, object) must equal the model's: a table or non-virtual column that existed before the file and is gone after it, and nothing else; each Pos must fall inside a statement of the drop/rebuild of that table; exit status is non-zero iff the window holds a destructive file.",
    "One step per table per file keeps 'existed before the file' unambiguous. Only the destructive analyzer's codes (DS1xx) are judged; other analyzers' diagnostics are ignored. SQLite only.",
    "4/C18"),
+ "C19": ("exploration",
+   "metamorphic relation for skipped change kinds (enumerated + rapid), differential against a declarative reference of the exclude-pattern semantics (rapid pattern grammar), and end-to-end rapid cases on a real SQLite engine and the real CLI",
+   "(a) For the MySQL, PostgreSQL and SQLite differs, SchemaDiff with DiffSkipChanges(K) over the C02 base and catalogue edit sets must equal the unrestricted diff minus every K-typed change at every nesting level, for every single kind against every single edit and for random kind subsets x edit sets. "
+   "(b) ExcludeRealm on realms of 1-2 schemas is compared in both directions (absent and remaining) with an independent reference of the documented pattern semantics over a pattern grammar (1-3 parts, wildcards, classes, quoted names with dots, [type=...] selectors). "
+   "(c) sqlite InspectRealm/InspectSchema with Exclude on real databases against the same reference; `atlas schema apply --exclude <tables>` must leave excluded tables byte-identical while the rest converges; `--env` with diff.skip must never perform a skipped kind of change (observed in the independent catalog).",
+   "The cascade from an excluded column to its indexes/FKs is judged only when no selector restricts the kinds (unspecified otherwise). Foreign keys of kept tables that point at excluded tables are not compared. Skippable kinds are the table-level ones of cmdapi.SkipChanges that the generated schemas can produce.",
+   "4/C19"),
 }
 PENDING_REASON = "check not built yet in this session (planned in DESIGN.md section 4; will be claimed once its quick check is green and sensitivity-tested)"
 
